@@ -311,6 +311,8 @@ func main() {
 		os.Exit(0)
 	case "selftest":
 		os.Exit(selftest(os.Args[2:]))
+	case "mutants":
+		os.Exit(mutants(os.Args[2:]))
 	}
 	id := os.Args[1]
 	tier := os.Getenv("VERIF_TIER")
@@ -348,6 +350,9 @@ func runCheck(id, tier string, pl plan) int {
 	seed := seedBase()
 	W := nworkers()
 	replayDir := filepath.Join(verifDir, "replays")
+	if v := os.Getenv("VERIF_REPLAYS_DIR"); v != "" {
+		replayDir = v
+	}
 	_ = os.MkdirAll(replayDir, 0o755)
 	work, err := os.MkdirTemp("/tmp", "verif-run-")
 	if err != nil {
@@ -394,7 +399,13 @@ func runCheck(id, tier string, pl plan) int {
 					env = append(env, "VERIF_TO=2000000000", fmt.Sprintf("VERIF_WORKER_BUDGET_S=%d", partBudget))
 					timeout = time.Duration(partBudget)*time.Second + 10*time.Minute
 				} else {
-					env = append(env, fmt.Sprintf("VERIF_TO=%d", p.QuickRuns))
+					n := p.QuickRuns
+					if v := os.Getenv("VERIF_QUICK_PERCENT"); v != "" {
+						if pc, err := strconv.Atoi(v); err == nil && pc > 0 {
+							n = max(W, n*pc/100)
+						}
+					}
+					env = append(env, fmt.Sprintf("VERIF_TO=%d", n))
 				}
 				outFile := filepath.Join(work, fmt.Sprintf("sum-%d-%d.json", pi, w))
 				out, err := runWorker(bin, env, outFile, timeout)
@@ -581,8 +592,12 @@ func runCheck(id, tier string, pl plan) int {
 		"assumptions": pl.Assumption,
 	}
 	b, _ := json.MarshalIndent(ev, "", " ")
-	_ = os.MkdirAll(filepath.Join(verifDir, "evidence"), 0o755)
-	if err := os.WriteFile(filepath.Join(verifDir, "evidence", id+".json"), b, 0o644); err != nil {
+	evDir := filepath.Join(verifDir, "evidence")
+	if v := os.Getenv("VERIF_EVIDENCE_DIR"); v != "" {
+		evDir = v
+	}
+	_ = os.MkdirAll(evDir, 0o755)
+	if err := os.WriteFile(filepath.Join(evDir, id+".json"), b, 0o644); err != nil {
 		die(2, "write evidence: %v", err)
 	}
 	fmt.Printf("check %s tier=%s seed=%d: runs=%d distinct_interleavings=%d nontrivial=%d sim_time=%.0fs steps=%d new_violations=%d known_findings=%d wall=%.1fs\n",
@@ -702,4 +717,81 @@ func selftest(args []string) int {
 		return 2
 	}
 	return 0
+}
+
+// mutants: sensitivity self-test. Every patch in mutants/<ID>-*.patch is applied to a scratch copy of /repo and
+// the property's quick check must report a violation.
+func mutants(args []string) int {
+	pattern := "*"
+	if len(args) > 0 {
+		pattern = args[0] + "-*"
+	}
+	files, _ := filepath.Glob(filepath.Join(verifDir, "mutants", pattern+".patch"))
+	sort.Strings(files)
+	self, _ := os.Executable()
+	survived := 0
+	type row struct{ name, result string }
+	var rows []row
+	for _, f := range files {
+		name := strings.TrimSuffix(filepath.Base(f), ".patch")
+		id := name[:strings.IndexByte(name, '-')]
+		scratch, _ := os.MkdirTemp("/tmp", "verif-mutant-")
+		cmd := exec.Command("bash", "-c", fmt.Sprintf("rsync -a --exclude .git %s/ %s/repo/ && cd %s/repo && patch -s -p1 < %s", repoDir, scratch, scratch, f))
+		if out, err := cmd.CombinedOutput(); err != nil {
+			fmt.Printf("mutant %s: cannot apply: %v %s\n", name, err, out)
+			rows = append(rows, row{name, "patch-failed"})
+			os.RemoveAll(scratch)
+			survived++
+			continue
+		}
+		c := exec.Command(self, id, "--tier", "quick")
+		c.Env = append(os.Environ(), "VERIF_REPO="+scratch+"/repo", "VERIF_EVIDENCE_DIR="+scratch+"/ev", "VERIF_REPLAYS_DIR="+scratch+"/rp",
+			"VERIF_QUICK_PERCENT="+envOr("VERIF_MUTANT_PERCENT", "50"))
+		out, err := c.CombinedOutput()
+		code := 0
+		if ee, ok := err.(*exec.ExitError); ok {
+			code = ee.ExitCode()
+		}
+		res := "SURVIVED"
+		switch {
+		case code == 1 && strings.Contains(string(out), "VIOLATION property="):
+			res = "killed"
+			for _, ln := range strings.Split(string(out), "\n") {
+				if strings.HasPrefix(ln, "  rule=") {
+					res = "killed (" + strings.TrimSpace(firstN(ln, 90)) + ")"
+					break
+				}
+			}
+		case code == 2:
+			res = "harness-error"
+			fmt.Println(tailStr(string(out), 3000))
+			survived++
+		default:
+			survived++
+		}
+		fmt.Printf("mutant %-40s %s\n", name, res)
+		rows = append(rows, row{name, res})
+		os.RemoveAll(scratch)
+	}
+	b, _ := json.MarshalIndent(rows, "", " ")
+	_ = b
+	fmt.Printf("mutants: %d total, %d not killed\n", len(files), survived)
+	if survived > 0 {
+		return 1
+	}
+	return 0
+}
+
+func envOr(k, def string) string {
+	if v := os.Getenv(k); v != "" {
+		return v
+	}
+	return def
+}
+
+func firstN(s string, n int) string {
+	if len(s) > n {
+		return s[:n]
+	}
+	return s
 }
